@@ -2656,6 +2656,10 @@ class Executor:
             if callee is not None and callee.modifies:
                 pn = list(callee.params)
                 for m in callee.modifies:
+                    if m not in pn:
+                        # a ghost parameter of the callee: bound to the caller's ghost state of the same name
+                        stores.add(m)
+                        continue
                     k = pn.index(m)
                     if k < len(c.args) and isinstance(c.args[k], ast.Name):
                         stores.add(c.args[k].id)
